@@ -69,8 +69,10 @@ def _find_seams():
     have = {k for _, _, k in _SEAMS}
     if not ({"socket_module", "socket_class"} & have):
         raise HarnessError("no reference to the socket module/class found in pycomm3: transport seam is gone")
-    if not ({"urandom", "os_module"} & have):
-        raise HarnessError("no reference to os.urandom found in pycomm3: randomness seam is gone")
+    # randomness needs no reference inside the package: for the duration of a run os.urandom, the generator
+    # behind random.SystemRandom / secrets and the state of the global `random` module are owned by the
+    # simulation as well (Seams.__enter__), so `random.SystemRandom().getrandbits(16)` is as repeatable as
+    # `urandom(2)`; what remains uncontrolled shows up in the double-run digest comparison
 
 
 class _OsProxy:
@@ -141,6 +143,14 @@ class Seams:
         for mod, attr, kind in _SEAMS:
             self._saved.append((mod, attr, getattr(mod, attr)))
             setattr(mod, attr, fake[kind])
+        import os as _os
+        import random as _random
+        for mod, attr in ((_os, "urandom"), (_random, "_urandom")):
+            if hasattr(mod, attr):
+                self._saved.append((mod, attr, getattr(mod, attr)))
+                setattr(mod, attr, self._urandom)
+        self._rand_state = _random.getstate()
+        _random.seed(self._urng.getrandbits(64))
         root = logging.getLogger("pycomm3")
         if self.log_mode == "verbose":
             self.handler = _ListHandler()
@@ -155,6 +165,8 @@ class Seams:
         for mod, attr, val in reversed(self._saved):
             setattr(mod, attr, val)
         self._saved.clear()
+        import random as _random
+        _random.setstate(self._rand_state)
         root = logging.getLogger("pycomm3")
         root.handlers[:] = [logging.NullHandler()]
         root.setLevel(logging.CRITICAL + 10)
